@@ -3,7 +3,7 @@
 (* history of operations of the family's alphabet up to the bound, applying Container's   *)
 (* Apply; a state at the bound is printed with the results and the heap the specification *)
 (* demands and replayed on the generated container linked with the real runtime library.  *)
-EXTENDS Container, Merge, Json
+EXTENDS Container, Merge, API, Json
 
 CONSTANTS Family, MaxHist
 VARIABLES cfg0, files0, st, hist
@@ -184,11 +184,44 @@ TodoOps == {OpGetParam("p1"), OpGetParam("p2"), OpGetParam("p4"), OpGet("s1"), O
             OpOverrideService("s2", "NewZ", <<ARef("p1")>>), OpOverrideService("s1", "NewD", <<ASvc("s2")>>)}
 
 -----------------------------------------------------------------------------
+(* Family "api" (C13): getter x type form x must_getter x default_must_getter x meta names *)
+(* x what the second service does (own getter, the same getter, todo with a getter).       *)
+ApiGetters == IF Family = "apiq" THEN {Unset, "GetA", "MustGetA", "GetAInContext", "Get", "Container", "HotSwap"}
+              ELSE {Unset, "GetA", "MustGetA", "GetAInContext", "Container"} \cup RuntimeAPI
+ApiTypes   == IF Family = "apiq" THEN {Unset, "*fx.T", "fx.T"} ELSE {Unset, "*fx.T", "fx.T", "*\"probe.test/fx\".T", "*T", "\".\".T"}
+Tri == {Unset, "true", "false"}
+ApiCfg(g, t, m, dm, named, second) ==
+  LET byval == t \in {"fx.T", "\".\".T"} IN
+  [EmptyCfg EXCEPT
+     !.meta = [BaseMeta EXCEPT !.defmust = dm, !.pkg = IF "pkg" \in named THEN "mypkg" ELSE Unset,
+                               !.ctype = IF "ctype" \in named THEN "MyContainer" ELSE Unset,
+                               !.cctor = IF "cctor" \in named THEN "BuildIt" ELSE Unset],
+     !.services = (   "s1" :> [CtorSvc(IF byval THEN "fx.NewV" ELSE "fx.NewA", <<>>) EXCEPT !.getter = g, !.type = t, !.must = m]
+                   @@ "s2" :> (CASE second = "own"  -> [CtorSvc("fx.NewB", <<>>) EXCEPT !.getter = "GetB", !.type = "*fx.T", !.must = "true"]
+                                 [] second = "same" -> [CtorSvc("fx.NewB", <<>>) EXCEPT !.getter = "GetA"]
+                                 [] second = "todo" -> [EmptySvc EXCEPT !.todo = "true", !.getter = "GetA", !.must = "true"]
+                                 [] second = "failing" -> [CtorSvc("fx.NewE", <<AStr("fail")>>) EXCEPT !.getter = "GetB", !.type = "*fx.T", !.must = "true"]
+                                 [] second = "none" -> CtorSvc("fx.NewB", <<>>)))]
+ApiCfgs == {ApiCfg(g, t, m, dm, {}, sec) : g \in ApiGetters, t \in ApiTypes, m \in Tri, dm \in Tri,
+                                          sec \in {"own", "same", "todo", "none", "failing"}}
+           \cup {ApiCfg(g, "*fx.T", "true", Unset, n, "own") : g \in {Unset, "GetA"}, n \in SUBSET {"pkg", "ctype", "cctor"}}
+(* every generated method is exercised, then Get for identity *)
+ApiScript(c) ==
+  LET gs == SortSeq(SetToSeq({c.services[s].getter : s \in WithGetter(c)}), NameLt)
+      MustOf(g) == MustEff(c, GetterOwner(c, g)) IN
+  <<OpGet("s1")>> \o
+  FlattenSeq([i \in 1..Len(gs) |->
+                <<OpGetter(gs[i]), OpGetterIn(1, gs[i])>> \o
+                (IF MustOf(gs[i]) THEN <<OpMustGetter(gs[i]), OpMustGetterIn(2, gs[i])>> ELSE <<>>)])
+  \o <<OpGet("s2")>>
+
+-----------------------------------------------------------------------------
 Configs ==
   CASE Family = "build"  -> {BuildCfg(v) : v \in {x \in PairVectors : LegalVec(x) /\ Determined(x)}}
     [] Family = "scope2" -> ScopeCfgs({"s1", "s2"})
     [] Family = "scope3" -> ScopeCfgs({"s1", "s2", "s3"})
     [] Family = "todo"   -> TodoCfgs
+    [] Family \in {"api", "apiq"} -> ApiCfgs
     [] OTHER -> {}
 
 NoFl == [ignoreP |-> FALSE, ignoreS |-> FALSE]
@@ -196,8 +229,10 @@ FileSets ==
   CASE Family \in {"tags", "tagsq"} -> {f \in TagFileSets : OutputAccepted(MergeAll(f), NoFl)}
     [] OTHER -> {<<c>> : c \in Configs}
 
-Scripted == Family \in {"build", "tags", "tagsq"}
-Script == IF Family = "build" THEN BuildScript ELSE TagScript
+Scripted == Family \in {"build", "tags", "tagsq", "api", "apiq"}
+Script == IF Family = "build" THEN BuildScript
+          ELSE IF Family \in {"api", "apiq"} THEN (IF APIAccepted(cfg0) THEN ApiScript(cfg0) ELSE <<>>)
+          ELSE TagScript
 Alphabet(c) ==
   CASE Family = "scope2" -> ScopeOps({"s1", "s2"})
     [] Family = "scope3" -> ScopeOps({"s1", "s2", "s3"})
@@ -216,7 +251,7 @@ Do(o) == LET r == Apply(st, o) IN
 Next == /\ Len(hist) < Bound
         /\ IF Scripted THEN Do(Script[Len(hist) + 1]) ELSE \E o \in Alphabet(cfg0) : Do(o)
 
-Emit == Len(hist) = Bound => PrintT(<<"ST", ToJson([cfg |-> cfg0, files |-> files0, hist |-> hist, heap |-> st.heap, cnt |-> st.cnt])>>)
+Emit == Len(hist) = Bound => PrintT(<<"ST", ToJson([cfg |-> cfg0, files |-> files0, api |-> [accept |-> APIAccepted(cfg0), violations |-> GetterViolations(cfg0), methods |-> GetterMethods(cfg0), names |-> Names(cfg0)], hist |-> hist, heap |-> st.heap, cnt |-> st.cnt])>>)
 
 -----------------------------------------------------------------------------
 (* R1: design-level invariants of the run-time semantics.                                *)
@@ -243,6 +278,7 @@ TodoFails ==
 LazyParams == hist = <<>> => st.cnt = Empty /\ st.pcache = Empty
 
 (* a shared service has at most one instance for the life of the container               *)
+ApiNoCollision == NoCollision(cfg0)
 NoOverride == \A i \in 1..Len(hist) : hist[i].op.op # "OverrideService"
 SharedOnce ==
   NoOverride => \A i, j \in 1..Len(hist) :
